@@ -354,6 +354,39 @@ def gen_cases(rng, tier):
             doc, sops, ids, max_id, g = gen_doc(rng, reals, n=big)
             revs = gen_revs(rng, reals, g, ids, max_id, fmt, 1)
             cases.append((g.finish(L('inc', fmt, doc, sops, *revs)), {'kind': 'big-%s' % fmt, 'nontrivial': True}))
+    # file-size / digit-count families: offsets of 6 (quick) and 7 (thorough) digits from a few large streams (bodies holding
+    # every byte value and the keywords a careless reader resynchronises on), every generation 65535 ("65535 n" entries and
+    # 0xFFFF in field 3 of a cross-reference stream), many tiny objects (long subsections / one long Index pair), and dense
+    # runs broken by single gaps (many one-entry subsections); each followed by one incremental update.
+    # lopdf's writer never puts anything after %%EOF, so "trailing data after startxref" cannot be produced by save;
+    # the strict runner is quadratic in (objects x file size): more than ~2500 objects is left to the thorough tier of C01.
+    def direct_doc(objects, max_id, trailer=None):
+        g = ObjGen(rng, reals, allow_ref=True)
+        doc = DOC(b'1.7', MARK, trailer if trailer is not None else [(b'Root', REF(objects[0][0][0], objects[0][0][1]))], objects, max_id)
+        g.frozen_ids = []
+        return g, g.finish(doc), [o for o, _ in objects]
+
+    def big_body(k, size):
+        unit = bytes(range(256)) + b'\nendstream\nendobj\n%d 0 obj\nxref\ntrailer\nstartxref\n%%%%EOF\n' % k
+        return (unit * (size // len(unit) + 1))[:size]
+
+    fams = []
+    for size in ([30000] if tier == 'quick' else [30000, 400000]):
+        objs = [((1, 0), D([(b'Type', N(b'Catalog'))]))]
+        for k in range(2, 6):
+            body = big_body(k, size + k)
+            objs.append(((k, 0), ST([(b'Length', I(len(body)))], body)))
+        objs.append(((9, 7), A([I(1), REF(2, 0), S(b'after the big streams')])))
+        fams.append(('digits%d' % len(str(4 * size)), objs, 9))
+    fams.append(('gen65535', [((k, 65535), D([(b'K', I(k)), (b'R', REF(max(1, k - 1), 65535))])) for k in (1, 2, 3, 5, 8, 13, 14, 15, 40)], 41))
+    nmany = 1000 if tier == 'quick' else 2500
+    fams.append(('many-tiny', [((k, 0), I(k)) for k in range(1, nmany + 1)], nmany))
+    fams.append(('many-gaps', [((k, k % 3), I(k)) for k in range(1, nmany // 2) if k % 7 != 0], nmany // 2 + 3))
+    for name, objs, mx in fams:
+        for fmt in ('table', 'stream'):
+            g, doc, ids = direct_doc(objs, mx)
+            revs = gen_revs(rng, reals, g, ids, mx, fmt, 1)
+            cases.append((g.finish(L('inc', fmt, doc, L('sops'), *revs)), {'kind': 'size-%s-%s' % (name, fmt), 'nontrivial': True}))
     _MEMO[tier] = cases
     return cases
 
@@ -646,10 +679,14 @@ def replay(ctx, payload):
     return 1 if v.startswith('FAIL') or v.startswith('CONTROL') else 0
 
 
-PARTIAL_NOTE = ('proved: soundness of the strict reader (what acceptance means) and rung 1 about Model/Save.v (20-byte entries, startxref exact, '
-                'offsets exact for every recorded entry, stream Length given the dictionary round trip); NOT proved: the whole-file theorem '
-                'strict_load (save x d) = Some (sdoc_of d) in general (two computed instances only), the object-level round trip of the strict '
-                'tokenizer, the incremental variant, all_bytes_accounted as a theorem about the model (it is enforced at run time on every produced file)')
+PARTIAL_NOTE = ('proved for the writer model (Model/Save.v, Model/Incremental.v): C03_strict (strict_load (save x d) = SOk (sdoc_of x d), both '
+                'cross-reference formats, every strict_savable document below 4 GiB), C03_all_bytes_accounted, C03_object_rt (strict tokenizer '
+                'against write_object, every well-formed direct object), C03_strict_incremental (ONE update appended to a plain save, both formats). '
+                'NOT proved: a history of two or more updates (the second update would need the same theorem with an incremental file as first '
+                'revision: the statement generalises -- revision-in-context lemmas are format- and position-independent -- but the induction over '
+                'the history is not done); updates whose previous document came from IncrementalDocument::load_from are covered through the '
+                'hypothesis inc_update (trailer Prev = previous startxref, max_id not below the previous one), not derived from a model of the loader; '
+                'files of 4 GiB and more are outside the domain (u32 offsets)')
 
 MANIFEST = {
     'level_text': 'The reference reader of the property is a Coq specification (Spec/StrictReader.v, written from ISO 32000-1 7.2/7.3/7.5, sharing '
@@ -659,16 +696,19 @@ MANIFEST = {
                   'Length, Size, the Prev chain and a gap-free, overlap-free tiling of every byte hold, and the recovered objects/trailer/version equal '
                   'what was saved. Machine-checked proofs: (1) acceptance by that reader implies each of these facts (C03_accept_sound, '
                   'C03_entry_20_bytes, C03_subsection_exact, C03_xref_stream_consistent, C03_stream_lengths, C03_chain_covers/disjoint); (2) about the '
-                  'writer model Model/Save.v: every table entry it prints is a valid 20-byte entry with the same numbers, the number after startxref '
-                  'is found from the end of the file and is the offset of the xref keyword / XRef stream header, every recorded entry holds the exact '
-                  'offset of "id gen obj" as the strict reader recognises it and every written object has one (both formats, body <= 2^32 bytes), '
-                  'stream content is taken exactly by Length given the dictionary round trip (partial).',
-    'level_note': 'Partial: the whole-file theorem strict_load (save x d) = Some (sdoc_of d) is proved only for two computed instances, not in general '
-                  '(missing: object-level round trip of the strict tokenizer against Writer.write_object and the composition / span arithmetic); no '
-                  'theorem about the incremental writer model; "every byte accounted for" is enforced by the extracted reader at run time on every '
-                  'produced file, not proved about the model. Trusted: Coq kernel; extraction/OCaml driver; Rust harness; Python comparison of '
-                  'recovered and saved objects (numbers by value); Model/Save.v corresponds to the crate as far as ./check C01 exercises it. '
-                  'No axioms (Print Assumptions: closed for all 17 theorems).',
+                  'writer model Model/Save.v (tied byte for byte to the crate by ./check C01), for ALL documents of the domain (C01 savable + version '
+                  'd.d + binary mark of >= 4 bytes, file < 4 GiB) and both formats: C03_strict  strict_load (save x d) = SOk (sdoc_of x d) with the '
+                  'explicit recovered document (objects in normal form, trailer, entries, located objects, spans), C03_all_bytes_accounted (the spans '
+                  'tile [0,|file|) without gap or overlap), C03_object_rt (the strict tokenizer reads write_object o back for every well-formed direct '
+                  'object, any nesting depth, any bytes), C03_save_indirect_object (stream Length exact also when the content contains endstream); '
+                  '(3) about the incremental writer model Model/Incremental.v: C03_strict_incremental -- one update appended to a plain save is accepted, '
+                  'the previous file is a verbatim prefix, Prev is followed, both revisions tile the file, the newest revision decides per object number.',
+    'level_note': 'Partial: a history of two or more incremental updates is not proved (one update is; the run-time tie covers 1-3 updates on every run); '
+                  'the incremental theorem takes the shape of the update (Prev = previous startxref, max_id not below the previous one) as hypotheses '
+                  'C07 proves for its model of the editing operations, not from a model of IncrementalDocument::load_from. Files >= 4 GiB excluded '
+                  '(u32 offsets). Trusted: Coq kernel; extraction/OCaml driver; Rust harness; Python comparison of recovered and saved objects '
+                  '(numbers by value); Model/Save.v and Model/Incremental.v correspond to the crate as far as ./check C01 / C07 exercise them. '
+                  'No axioms (Print Assumptions: closed for all 32 theorems).',
     'technique': 'Coq specification extracted and run on the real output (spec-as-oracle) + Coq proofs of spec soundness and of writer-model/spec agreement',
     'design_ref': 'DESIGN.md 6 C03',
 }
